@@ -108,6 +108,11 @@ def check(case):
 
 def _check(case, env):
     kind, cfg, spec = case["kind"], dict(case["cfg"]), case.get("serde")
+    if case.get("dialect"):
+        # the server answers in a dialect of the protocol that says the same thing (blanks or a tab where one blank is usual,
+        # items in another order): what was stored is what is fetched all the same
+        for srv_ in env.servers:
+            srv_.dialect = set(case["dialect"])
     items = [(k, c15.build(vd)) for k, vd in case["items"]]
     absent = list(case.get("absent", ()))
     srv = env.server
@@ -379,7 +384,8 @@ def case_strategy(draw, tier="quick"):
     return {"kind": kind, "cfg": cfg, "serde": spec, "items": items, "absent": absent, "store": store, "fetch": fetch,
             "coll": coll, "pieces": pieces, "noreply": draw(st.booleans()), "respell": draw(st.booleans()),
             "event": draw(st.sampled_from([None, None, "close", "outage"])),
-            "serde_as": draw(st.sampled_from(["object", "object", "functions"]))}
+            "serde_as": draw(st.sampled_from(["object", "object", "functions"])),
+            "dialect": draw(st.sampled_from([None, None, None, ["value-trailing-blank"], ["value-tab"], ["value-double-blank"], ["reverse"]]))}
 
 
 def grid_cases(tier, seed):
@@ -456,6 +462,14 @@ def grid_cases(tier, seed):
                                  ["n3", ("nesting", ("bytes", b"o" * 500), ("dict", [[("str", "session"), ("str", "bob")]]))],
                                  ["n4", ("list", [("nesting", ("int", 1), ("str", "x" * 450)), ("str", "after")])]],
                        "absent": [], "store": store, "fetch": fetch, "coll": "list", "pieces": None, "noreply": False}
+    # reply dialects that say the same thing
+    for dia in (["value-trailing-blank"], ["value-tab"], ["value-double-blank"], ["reverse"], ["reverse", "value-double-blank"]):
+        for kind in ("client", "pooled", "hash"):
+            for fetch in ("get", "gets", "gat", "gats", "get_many", "gets_many"):
+                for spec in (None, ("pickle", 2)):
+                    yield {"kind": kind, "cfg": {"key_prefix": b"d:", "allow_unicode_keys": False, "encoding": "ascii"}, "serde": spec, "dialect": dia,
+                           "items": [["a", ("bytes", b"raw\r\nbytes")], [b"b", ("bytes", b"")], ["c", ("noise", 5000, 1)]], "absent": ["nope"],
+                           "store": "set", "fetch": fetch, "coll": "iter", "pieces": [4096, 7], "noreply": False}
     # the legacy spellings of a serializer: the two functions instead of the object, and a deserializer function alone
     for kind in ("client", "pooled", "hash", "hash-pooled"):
         for fetch in ("get", "gets", "gat", "gats", "get_many", "gets_many"):
